@@ -895,6 +895,18 @@ func (c *EvalCtx) call(v *ECall) TV {
 			return tvTerm(c.x.heapGet(c.state(), ghostHeapName(ty, fs.V), gs))
 		}
 		c.fail("heapOf: no field %s in %s", fs.V, ts.V)
+	case "asString", "asBool", "asInt":
+		// payload of an interface value holding a string / bool / int
+		need(1)
+		a := c.termOf(c.eval(v.Args[0]))
+		var ty types.Type = types.Typ[types.String]
+		if v.Fun == "asBool" {
+			ty = types.Typ[types.Bool]
+		} else if v.Fun == "asInt" {
+			ty = types.Typ[types.Int]
+		}
+		val := c.x.unboxAs(a, ty)
+		return tvTerm(c.x.toTerm(c.state(), val, ty))
 	case "tag":
 		need(1)
 		return tvTerm(itag(c.termOf(c.eval(v.Args[0]))))
